@@ -852,11 +852,8 @@ Examples:
     # substitite one list of strings for another
     if list_or_tuple_or_ndarray(markers):
         equations = replace_variables(constraints,variables,'_')
-        vars = get_variables(equations,'_')
-        indices = [int(v.strip('_')) for v in vars]
-        for i in range(len(vars)):
-            equations = equations.replace(vars[i],markers[indices[i]])
-        return equations
+        # substitute all markers in a single pass (names are not rescanned)
+        return re.sub(r'(?<![A-Za-z0-9_])_([0-9]+)', lambda m: markers[int(m.group(1))], equations)
 
     # Sort by decreasing length of variable name, so that if one variable name 
     # is a substring of another, that won't be a problem. 
